@@ -21,11 +21,15 @@ UserVal(k, f) == (IF k \in {"SB20", "SB21KW"} THEN KindNo("SB21") ELSE KindNo(k)
 UserValOf(k, f, o, p) == UserVal(k, f) + (IF p > 1 /\ Len(o) > 1 /\ o[2] = "diff" THEN 4 ELSE 0)
 Step == 8                                                    \* numbers reserved per draw burst (> number of fields of any kind)
 Ideal(k, ex, o, p, F, at) == [f \in F |-> IF f \in ex THEN UserValOf(k, f, o, p) ELSE at + FieldNo(k, f)]
+\* a field an option hands to the user (Fresh!Fixed: zero padding) has one value in every artefact built with that option
+ZeroId == 1
+WithFixed(k, h, o, vals) == [f \in DOMAIN vals |-> IF f \in Fixed(k, h, o) THEN ZeroId ELSE vals[f]]
 
 MInit == Init /\ draws = 100 /\ nexp = 0
 MImport == ~imported /\ \E n \in {0, 3} : Import(n) /\ draws' = draws + n /\ UNCHANGED nexp
 \* part p of the build of menu item m (the ideal generator draws for every part of a build)
-ConstructItem(m, p) == Construct(m.kind, m.how, ToSet(m.ex), m.opt, p, Ideal(m.kind, ToSet(m.ex), m.opt, p, Fields(m.kind) \ Late(m.kind), draws), {})
+ConstructItem(m, p) == Construct(m.kind, m.how, ToSet(m.ex), m.opt, p,
+                                 WithFixed(m.kind, m.how, m.opt, Ideal(m.kind, ToSet(m.ex), m.opt, p, Fields(m.kind) \ Late(m.kind), draws)), {})
                        /\ draws' = draws + Step /\ UNCHANGED nexp
 \* a build that has begun is completed (Open > 0: the next part, whatever the bound); a new build only below the bound
 MConstruct == imported /\ \E m \in UseMenu : \E p \in 1..MaxParts : (p > 1 \/ Len(arts) < MaxArts) /\ ConstructItem(m, p)
@@ -35,7 +39,8 @@ ReconfigureItem(o, m) == Reconfigure(o, ToSet(m.ex), Ideal(m.kind, ToSet(m.ex), 
                          /\ draws' = draws + Step /\ UNCHANGED nexp
 MReconfigure == Len(arts) < MaxArts /\ \E o \in live : \E m \in ReconfItems(o) : ReconfigureItem(o, m)
 \* an export keeps the values of construction time and draws the late fields anew
-ExportVals(a) == [f \in Fields(Art(a).kind) |-> IF f \in Late(Art(a).kind) THEN draws + FieldNo(Art(a).kind, f) ELSE Art(a).val[f]]
+ExportVals(a) == WithFixed(Art(a).kind, Art(a).how, Art(a).opt,
+                           [f \in Fields(Art(a).kind) |-> IF f \in Late(Art(a).kind) THEN draws + FieldNo(Art(a).kind, f) ELSE Art(a).val[f]])
 ExportArt(a) == Export(a, ExportVals(a), {}, Seen(Art(a).kind, Art(a).how, Art(a).opt, Art(a).part), {}) /\ draws' = draws + Step /\ nexp' = nexp + 1
 MExport == nexp < MaxExp /\ \E a \in live : ExportArt(a)
 MRestart == proc < MaxProc /\ imported /\ Restart /\ UNCHANGED <<draws, nexp>>
